@@ -50,3 +50,13 @@ Definition py_setitem_o {A} (l : list A) (idx : Z) (x : A) : outcome (list A) :=
   let n := Z.of_nat (List.length l) in
   let i := if idx <? 0 then idx + n else idx in
   if (0 <=? i) && (i <? n) then Ok (NV.Model.Eui.list_set l (Z.to_nat i) x) else Raise IndexError.
+
+(* ---- text methods used by OUI._parse_data / IAB._parse_data (netaddr/eui/__init__.py): the hand models of Model/Ieee.v,
+   which act on the UTF-8 bytes of the decoded text (see the comment there for the whitespace they know) ---- *)
+(* s.split("\n") *)
+Definition py_str_split_nl (s : string) : list string := Ieee.split_nl s.
+(* s.strip() *)
+Definition py_str_strip (s : string) : string := Ieee.strip s.
+(* s.split(None, 2)[2]: the rest of the line after its first two fields, IndexError when there are fewer than three *)
+Definition py_str_field3 (s : string) : outcome string :=
+  match Ieee.third_field s with Some t => Ok t | None => Raise IndexError end.
